@@ -637,3 +637,60 @@ def mapped_reconstructed_data_dict(mask, data, noise, psf, sub, sources, mesh_sh
     if tot.shape != total.shape or np.any(np.abs(tot - total) > 1e-9 * (np.abs(total) + np.max(np.abs(total)) + 1e-300)):
         return "mapped_reconstructed_data %r != sum of the per-object model data %r" % (tot, total)
     return None
+
+
+# ------------------------------------------------------------------------------------------------ linear objects reused by a second inversion
+
+@bounded("C05", "mapper-object-reused-by-a-second-inversion", gen=_gen_mapped,
+         nontrivial=lambda **kw: len(kw["sources"]) > 1 and kw["positive_only"] and kw["force_edge"])
+def mapper_object_reused_by_a_second_inversion(mask, data, noise, psf, sub, sources, mesh_shapes, coefficients, func_matrix,
+                                               use_w_tilde, positive_only, force_edge):
+    """C05: 'Parameters that the settings force to zero are zero and the remaining ones are optimal for the reduced system ...
+    s is the unique minimiser ...' -- for every inversion, whatever its linear objects were used for before: the SAME mapper
+    object M is first solved in an inversion [M, A (, f)] and then in an inversion [M, B] with another partner (B = A with a
+    different mesh shape), and alone [M]; every reconstruction must equal that of the same inversion built from fresh, equal
+    objects (a list cached on a mapper or its mesh and extended by an inversion shows here); datasets as
+    inversion-real-mappers-both-formalisms, two-mapper cases."""
+    import autoarray as aa
+    from autoarray import exc
+    if len(sources) < 2:
+        return None
+
+    def build(which_sources, which_shapes, which_coeffs, with_func, reuse=None):
+        objs, inv = _real_inversion(aa, mask, data, noise, psf, sub, which_sources, which_shapes, which_coeffs,
+                                    func_matrix if with_func else None, use_w_tilde, positive_only, force_edge)
+        if reuse is not None:
+            objs = [reuse] + objs[1:]
+            inv = aa.Inversion(dataset=inv.dataset, linear_obj_list=objs, settings=inv.settings)
+        return objs, inv
+
+    def solve(inv):
+        try:
+            return np.array(inv.reconstruction, dtype=float)
+        except exc.InversionException:
+            return "InversionException"
+        except Exception as e:
+            return "%s: %s" % (type(e).__name__, str(e)[:200])
+
+    shape_b = (mesh_shapes[1][0] + 1, mesh_shapes[1][1])
+    plans = [("[M, A%s]" % (", f" if func_matrix is not None else ""), sources, mesh_shapes, coefficients, True),
+             ("[M, B]", sources, [mesh_shapes[0], shape_b], coefficients, False),
+             ("[M]", sources[:1], mesh_shapes[:1], coefficients[:1], False),
+             ("[M, A] again", sources, mesh_shapes, coefficients, False)]
+    shared = None
+    for label, srcs, shps, cfs, wf in plans:
+        fresh_objs, fresh_inv = build(srcs, shps, cfs, wf)
+        want = solve(fresh_inv)
+        objs, inv = build(srcs, shps, cfs, wf, reuse=shared)
+        if shared is None:
+            shared = objs[0]
+        got = solve(inv)
+        if isinstance(want, str) or isinstance(got, str):
+            if want != got:
+                return "inversion %s with the mapper object M used before: %s; with fresh equal objects: %s" % (
+                    label, got if isinstance(got, str) else "a reconstruction", want if isinstance(want, str) else "a reconstruction")
+            continue
+        if got.shape != want.shape or not np.allclose(got, want, rtol=1e-9, atol=1e-9 * (1.0 + float(np.abs(want).max()))):
+            return "inversion %s re-using the mapper object M of the earlier inversions: reconstruction %r, with fresh equal objects %r" % (
+                label, got, want)
+    return None
